@@ -128,6 +128,8 @@ func opString(op Op, variant string) string {
 		return "package.preload." + op.N + "=nil"
 	case "del":
 		return "delete files of " + op.N
+	case "newpre":
+		return "package.preload={}"
 	case "host":
 		return "RegisterModule " + op.N + " +require"
 	case "blk":
@@ -228,6 +230,18 @@ func runCase(c *fw.Ctx, cs *Case, count bool, transcript ...*[]string) (dv *dive
 				m.fail("", "package.preload[%q]=nil failed: %s", op.N, fw.Short(o.Err.Error(), 200))
 			}
 			delete(m.preload, op.N)
+		case "newpre":
+			// the script replaces the whole table: every registration made so far is
+			// gone, every later one - from Lua or through PreloadModule - goes into
+			// the table that package.preload names now
+			_, o := gl.Call(L, h.newpreFn)
+			canary(o, "package.preload={}")
+			if o.Err != nil {
+				m.fail("", "package.preload={} failed: %s", fw.Short(o.Err.Error(), 200))
+			}
+			for k := range m.preload {
+				delete(m.preload, k)
+			}
 		case "del":
 			h.deleteFiles(op.N)
 			for _, p := range h.candidates(op.N) {
@@ -521,8 +535,10 @@ func genRandom(r *rand.Rand) *Case {
 			op = Op{K: "req", N: name()}
 		case k < 88:
 			op = Op{K: "clr", N: name()}
-		case k < 92:
+		case k < 91:
 			op = Op{K: "unp", N: name()}
+		case k < 92:
+			op = Op{K: "newpre"}
 		case k < 96:
 			op = Op{K: "del", N: name()}
 		default:
@@ -628,7 +644,8 @@ func run(c *fw.Ctx) {
 func statFailCases() []*Case {
 	long := strings.Repeat("n", 300)
 	var out []*Case
-	for _, name := range []string{"blk.sub", "blk.sub.deep", long, "a." + long, long + ".b", "nul\x00x"} {
+	// ... and names that are ordinary file names but look like format directives
+	for _, name := range []string{"blk.sub", "blk.sub.deep", long, "a." + long, long + ".b", "nul\x00x", "rate%d", "100%", "%s%s%s%s", "a%20b.c%", "%!v(MISSING)"} {
 		pre := []Op{}
 		if strings.HasPrefix(name, "blk.") {
 			pre = []Op{{K: "blk", N: "blk"}}
@@ -637,6 +654,13 @@ func statFailCases() []*Case {
 			&Case{Fam: "statfail", Var: "luapre", Ops: append(append([]Op{}, pre...), Op{K: "req", N: name})},
 			&Case{Fam: "statfail", Var: "file", Ops: append(append([]Op{{K: "def", N: "a", Beh: "tab"}, {K: "req", N: "a"}}, pre...),
 				Op{K: "req", N: name}, Op{K: "req", N: name}, Op{K: "req", N: "a"})})
+	}
+	// the script replaces the preload table, then registrations from both sides
+	for _, src := range []string{"gopre", "luapre"} {
+		out = append(out,
+			&Case{Fam: "statfail", Var: src, Ops: []Op{{K: "newpre"}, {K: "def", N: "a", Src: src, Beh: "tab"}, {K: "req", N: "a"}, {K: "req", N: "a"}}},
+			&Case{Fam: "statfail", Var: src, Ops: []Op{{K: "def", N: "a", Src: src, Beh: "tab"}, {K: "newpre"}, {K: "req", N: "a"}, {K: "def", N: "a", Src: src, Beh: "str"}, {K: "req", N: "a"}}},
+			&Case{Fam: "statfail", Var: src, Ops: []Op{{K: "def", N: "b", Src: src, Beh: "tab"}, {K: "req", N: "b"}, {K: "newpre"}, {K: "clr", N: "b"}, {K: "req", N: "b"}, {K: "def", N: "b", Src: src, Beh: "none"}, {K: "req", N: "b"}}})
 	}
 	return out
 }
